@@ -1377,11 +1377,13 @@ impl<'a, 'b, W: Write> Serializer for &'a mut YamlSerializer<'b, W> {
         _variant_index: u32,
         variant: &'static str,
     ) -> Result<()> {
-        // If we are in a mapping value position, insert the deferred space after ':'
-        self.write_space_if_pending()?;
         if self.tagged_enums {
+            // If we are in a mapping value position, insert the deferred space after ':'
+            self.write_space_if_pending()?;
             self.serialize_tagged_scalar(name, variant)
         } else {
+            // `serialize_str` writes the deferred space itself and has to see it pending: a
+            // name long enough to be folded is indented relative to the key it belongs to.
             self.serialize_str(variant)
         }
     }
